@@ -860,7 +860,36 @@ pub fn reserve_checks(block: &Block, reference: &RunResult) -> Option<String> {
                     return Some(format!("with the reserve enabled transaction {i} differs from stock revm ({:?}) but is not a top-level revert with empty output: {other:?}", off.outcomes[i]));
                 }
             }
-            let justified = candidates.iter().any(|a| (delegated[a] || post_delegated[a]) && cost_after(i, *a) > post[a]);
+            // a justifying account must have been DEBITED by delegated execution in the policy-off
+            // run: its balance fell by more than what it paid itself as sender (fee on the gas
+            // actually used, plus the top-level value unless sent to itself)
+            let own_spend = |a: &Address| -> U256 {
+                let tx = &block.txs[i];
+                if tx.caller != *a {
+                    return U256::ZERO;
+                }
+                let used = match &off.outcomes[i] {
+                    TxExecutionOutcome::Executed(r) => r.tx_gas_used(),
+                    TxExecutionOutcome::Skipped(_) => 0,
+                };
+                let price = revm::context_interface::Transaction::effective_gas_price(tx, block.env.basefee as u128);
+                let value = match tx.kind {
+                    revm_primitives::TxKind::Call(to) if to == *a => U256::ZERO,
+                    _ => tx.value,
+                };
+                U256::from(used).saturating_mul(U256::from(price)).saturating_add(value)
+            };
+            // an account the transaction did not even touch cannot have been debited
+            let touched = |a: &Address| summary.is_some_and(|s| s.contains_key(a));
+            let justified = candidates.iter().any(|a| {
+                touched(a) &&
+                    (delegated[a] || post_delegated[a]) &&
+                    cost_after(i, *a) > post[a] &&
+                    // (for an account that is not the sender a credit may precede the debit, so
+                    // nothing can be concluded from its net change: a credit followed by an equal debit
+                    // still counts, the protected balance includes the credit)
+                    (block.txs[i].caller != *a || bal[a].saturating_sub(post[a]) > own_spend(a))
+            });
             if !justified {
                 return Some(format!(
                     "transaction {i} was turned into a revert, but in the policy-off execution no delegated account ends below the cost of its later transactions (balances after: {:?})",
